@@ -130,6 +130,13 @@ func c08Features() []c08Feature {
 				{"literal in the second of two same-named nested defs", "w * 5", "w * 9"}}},
 		{"three-lambdas-builtin", "def measure(xs):\n    a = lambda r: len(r)\n    b = lambda r: str(r)\n    c = lambda r: repr(r)\n    return [a(xs), b(xs), c(xs)]\n", "measure([1])",
 			[]c08Mut{{"builtin called by the first of three lambdas", "lambda r: len(r)", "lambda r: repr(r)"}, {"builtin called by the middle lambda", "lambda r: str(r)", "lambda r: len(r)"}}},
+		// tables of values whose encodings carry 4- and 8-byte fields, long enough to cross any buffer boundary of the codec
+		{"float-table", "RATIOS = [i * 0.5 for i in range(2500)]\n", "len(RATIOS)",
+			[]c08Mut{{"one element of a table of 2500 floats", "i * 0.5 for i", "i * 0.25 for i"}}},
+		{"wide-int-table", "OFFSETS = [70001 + i * 65537 for i in range(2000)]\n", "len(OFFSETS)",
+			[]c08Mut{{"the elements of a table of 2000 four-byte integers", "70001 + i", "70002 + i"}}},
+		{"huge-int-table", "HUGES = [(1 << 70) + i for i in range(400)]\n", "len(HUGES)",
+			[]c08Mut{{"the elements of a table of 400 big integers", "(1 << 70) + i", "(1 << 71) + i"}}},
 		{"mutual-recursion-ladder", c08Ladder(40), "lad_a0(0)",
 			[]c08Mut{{"literal at the far end of a 40-rung ladder of mutually recursive helpers", "return 7 if x <= 0", "return 8 if x <= 0"}, {"literal in the middle of the ladder", "return lad_a21(x) + 2", "return lad_a21(x) + 3"}}},
 		{"mutual-recursion-clique", c08Clique(12), "clq0(1)",
